@@ -53,8 +53,8 @@ def gen_rank(rnd: random.Random, rank: int, p: Dict[str, Any]) -> Dict[str, Any]
     if p["steps"]:
         vocab += [f"ProfilerStep#{k}" for k in rnd.sample(range(1, 40), p["steps"])]
     if n > 2000:
-        # K2 (sync-named events without correlation id are joined with every id-less host event when trimming) is
-        # quadratic: tens of GB for 33000 events.  The mechanism is exercised by the small cases; keep it out of the huge ones.
+        # sync-named events without correlation id used to be joined with every id-less host event when trimming (finding K2,
+        # fixed since): quadratic, tens of GB for 33000 events, if that ever returns.  The small cases exercise the mechanism.
         vocab = [v for v in vocab if v not in ("Event Sync", "Context Sync")]
     corr_small = rnd.random() < 0.6
     # event 0 is a host operator, as Kineto writes it (needed by the correlation transform's sentinel)
@@ -112,6 +112,9 @@ def gen_rank(rnd: random.Random, rank: int, p: Dict[str, Any]) -> Dict[str, Any]
                     side = used_corr_dev if dev_rule else used_corr_host
                     if c not in side:
                         side.add(c)
+                        args["correlation"] = c
+                    elif p.get("shared_host_ids") and not dev_rule and rnd.random() < 0.6:
+                        # a runtime call and the driver call nested in it carry the same id (CUPTI numbers the API call, not the record)
                         args["correlation"] = c
                 if rnd.random() < 0.3:
                     args["bytes"] = rnd.choice([12, 4096])
@@ -182,7 +185,7 @@ def gen_fileset(rnd: random.Random, tier: str, big: bool = False) -> Dict[str, A
          "steps": rnd.choice([0, 0, 0, 1]), "p_complete": rnd.choice([0.55, 0.7, 0.9, 1.0]),
          "shuffle": rnd.random() < 0.4, "per_rank_offset": rnd.choice([0, 0, 1000, -7]),
          "field_like_args": rnd.random() < 0.3, "odd_labels": rnd.random() < 0.25, "nameless": False,
-         "base_ns": rnd.choice(["some", "some", "same", "differ"])}
+         "base_ns": rnd.choice(["some", "some", "same", "differ"]), "shared_host_ids": rnd.random() < 0.3}
     files = {}
     for r in range(n_ranks):
         q = dict(p)
